@@ -102,8 +102,11 @@ class Network(ElementBase):
 
     @cached_property
     def origins_by_node(self) -> dict[Node, Origin[VarType]]:
-        d = self.origins
-        return dict(zip(d.values(), d.keys()))  # type: ignore[arg-type]
+        return {
+            node: data[ORIGINENTRY]
+            for node, data in self._graph.nodes.data()
+            if ORIGINENTRY in data
+        }
 
     @cached_property
     def destinations(self) -> dict[Destination[VarType], Node]:
@@ -122,8 +125,11 @@ class Network(ElementBase):
 
     @cached_property
     def destinations_by_node(self) -> dict[Node, Destination]:
-        d = self.destinations
-        return dict(zip(d.values(), d.keys()))
+        return {
+            node: data[DESTINATIONENTRY]
+            for node, data in self._graph.nodes.data()
+            if DESTINATIONENTRY in data
+        }
 
     @property
     def elements(self) -> Iterable[ElementWithVars[VarType]]:
